@@ -19,7 +19,7 @@ def c12_jobs(tier):
         # termination clause: a reproducible hang inside a solve is a violation (cases are small, the open case is the culprit)
         sh = 1 if q else 2
         for k in range(sh):
-            js.append(mjob('solve-r%d-s%d' % (r, k), 'c12', 'mpi-plain', r, ['--sub', 'solve'] + (['--shard', '%d/%d' % (k, sh)] if sh > 1 else []), timeout=2400 if q else 5400, hang_is_violation=True))
+            js.append(mjob('solve-r%d-s%d' % (r, k), 'c12', 'mpi-plain', r, ['--sub', 'solve'] + (['--shard', '%d/%d' % (k, sh)] if sh > 1 else []), timeout=900 if q else 1800, hang_is_violation=True))   # measured: 3-5 s quick, < 60 s thorough per job
     for r in ((2, 5) if q else (1, 2, 3, 4, 5, 6, 7, 8)):
         js.append(mjob('setup-r%d' % r, 'c12', 'mpi-plain', r, ['--sub', 'pmis,direct'], timeout=2400))
     # block size > 1 together with near-null-space vectors: separate processes (see sub_pmis in the harness)
@@ -27,10 +27,10 @@ def c12_jobs(tier):
         js.append(mjob('pmisbk-r%d' % r, 'c12', 'mpi-plain', r, ['--sub', 'pmis_bk'], timeout=2400))
     js.append(mjob('asan-pmisbk-r2', 'c12', 'mpi-asan', 2, ['--sub', 'pmis_bk', '--pmis_bk_cases=4'], timeout=3600))
     for r in ((3, 7) if q else (1, 2, 4, 5, 8)):
-        js.append(mjob('block-r%d' % r, 'c12b', 'mpi-plain', r, timeout=2400 if q else 5400, hang_is_violation=True))
+        js.append(mjob('block-r%d' % r, 'c12b', 'mpi-plain', r, timeout=900 if q else 2400, hang_is_violation=True))   # measured: 10 s quick
     if q:
-        js.append(mjob('asan-r3', 'c12', 'mpi-asan', 3, ['--sub', 'solve,pmis,direct', '--solves=6', '--pmis_cases=6', '--direct_cases=6'], timeout=3600))
-        js.append(mjob('asan-block-r2', 'c12b', 'mpi-asan', 2, ['--block_solves=3', '--sdd_solves=3', '--bp_solves=3', '--direct_cases=4'], timeout=3600))
+        js.append(mjob('asan-r3', 'c12', 'mpi-asan', 3, ['--sub', 'solve,pmis,direct', '--solves=12', '--pmis_cases=8', '--direct_cases=8'], timeout=3600))
+        js.append(mjob('asan-block-r2', 'c12b', 'mpi-asan', 2, ['--block_solves=6', '--sdd_solves=4', '--bp_solves=4', '--direct_cases=6'], timeout=3600))
     else:
         for r in (2, 5):
             js.append(mjob('asan-r%d' % r, 'c12', 'mpi-asan', r, ['--sub', 'solve,pmis,direct', '--solves=48', '--pmis_cases=30', '--direct_cases=30'], timeout=7200))
